@@ -30,6 +30,7 @@ import IsoDT.Driver.ConstructTrunc
 import IsoDT.Driver.StrptimeZone
 import IsoDT.Driver.RecurrenceQ
 import IsoDT.Driver.DurTextAlt
+import IsoDT.Driver.RecurrenceQFirst
 
 open IsoDT IsoDT.Model
 open IsoDT.Spec (Date TZ TP)
@@ -351,6 +352,7 @@ def extDispatch (toks : List String) : Option String :=
   <|> IsoDT.Driver.StrptimeZone.dispatch toks
   <|> IsoDT.Driver.RecurrenceQ.dispatch toks
   <|> IsoDT.Driver.DurTextAlt.dispatch toks
+  <|> IsoDT.Driver.RecurrenceQFirst.dispatch toks
   -- <|> IsoDT.Driver.Foo.dispatch toks
 
 def dispatch (toks : List String) : String :=
